@@ -166,6 +166,14 @@ class Body:
                     succ[i] = [tgt]
                 else:
                     ss = [c[1] for c in t["cases"]] + [t["otherwise"]]
+                    # `Err(e)?` / `None?`: Try::branch of a value just built as Err/None always breaks
+                    fixed = self._known_branch(t)
+                    if fixed is not None:
+                        tgt = t["otherwise"]
+                        for (cv, cb) in t["cases"]:
+                            if int(cv) == fixed:
+                                tgt = cb
+                        ss = [tgt]
                     succ[i] = list(dict.fromkeys(ss))
             elif k in ("goto", "drop", "assert", "call"):
                 succ[i] = [int(x) for x in t.get("t", []) if x != ""]
@@ -187,6 +195,22 @@ class Body:
             st.extend(succ[x])
         self._cfg = (succ, pred, reach)
         return self._cfg
+
+    def _known_branch(self, t):
+        """discriminant value of ControlFlow when the switch tests Try::branch(<Err(..) | None | Ok(..) | Some(..)> literal)"""
+        try:
+            e = self.expr(t["d"], 5)
+        except RecursionError:
+            return None
+        if e[0] != "discr":
+            return None
+        c = e[1]
+        if not (isinstance(c, tuple) and c[0] == "call" and norm_path(c[1]["path"]) == "core::ops::Try::branch" and c[2]):
+            return None
+        a = c[2][0]
+        if isinstance(a, tuple) and a[0] == "agg" and a[1] in ("core::result::Result", "core::option::Option"):
+            return 1 if a[2] in ("Err", "None") else 0
+        return None
 
     def switch_edges(self, i):
         """[(value or 'otherwise', target)] for a switch block (after constant pruning: [])."""
